@@ -82,11 +82,21 @@ def main(argv):
             from geneticengine.algorithms.gp.operators.selection import TournamentSelection
 
             step = ParallelStep([ElitismStep(), SequenceStep(TournamentSelection(2), GenericCrossoverStep(0.9), GenericMutationStep(0.5))], weights=[1, 9])
+        tracker = None
+        if cfg.get("tracker", "default") != "default":  # the ways a user hands a tracker to a search (geml, the csv example)
+            from geneticengine.evaluation.recorder import SearchRecorder
+            from geneticengine.evaluation.tracker import SingleObjectiveProgressTracker
+
+            class Seen(SearchRecorder):
+                def register(self, tracker, individual, problem, is_best):
+                    pass
+
+            tracker = SingleObjectiveProgressTracker(prob) if cfg["tracker"] == "bare" else SingleObjectiveProgressTracker(prob, recorders=[Seen()])
         alg = {
-            "gp": lambda: GeneticProgramming(prob, b, rep, src, population_size=cfg.get("pop", 6), step=step),
-            "rs": lambda: RandomSearch(prob, b, rep, src),
-            "hc": lambda: HC(prob, b, rep, src, number_of_mutations=cfg.get("pop", 3)),
-            "opo": lambda: OnePlusOne(prob, b, rep, src),
+            "gp": lambda: GeneticProgramming(prob, b, rep, src, population_size=cfg.get("pop", 6), step=step, tracker=tracker),
+            "rs": lambda: RandomSearch(prob, b, rep, src, tracker=tracker),
+            "hc": lambda: HC(prob, b, rep, src, number_of_mutations=cfg.get("pop", 3), tracker=tracker),
+            "opo": lambda: OnePlusOne(prob, b, rep, src, tracker=tracker),
         }[cfg["alg"]]()
         try:
             best = alg.search()
